@@ -328,3 +328,27 @@ func tightLimit(input []byte) (int, bool) {
 	gapLines(prevEnd, n)
 	return need, true
 }
+
+// genMemHuge: a document for IN-MEMORY parsing whose main root block is 1 byte
+// to 400 KiB ABOVE the streaming parser's block-size limit.
+func genMemHuge(r *Rng) []*Scenario {
+	over := []int{1, 2, 16, 100, 4096, 8192, 8193, 100000, 400000}[r.Intn(9)]
+	shape := r.Pick(hugeShapes)
+	var doc []byte
+	if r.Chance(0.5) {
+		for n := r.Range(0, 900) * 1024; len(doc) < n; {
+			doc = append(doc, compose(r, r.Range(1, 6))...)
+			doc = append(doc, '\n', '\n')
+		}
+	}
+	doc = append(doc, "\nstart\n\n"...)
+	doc = append(doc, bigBlock(r, realBlockLimit+over, shape)...)
+	doc = append(doc, "\nend *x*\n"...)
+	if r.Chance(0.15) {
+		doc = bytes.ReplaceAll(doc, []byte("\n"), []byte("\r"))
+	}
+	if r.Chance(0.15) && shape != "one-line" {
+		doc[len(doc)/2] = 0 // a NUL: Parse pads a copy
+	}
+	return []*Scenario{{Property: "C04", Phase: "memhuge", Doc: doc}}
+}
